@@ -1,9 +1,128 @@
-(* Codec lemmas (C01 codec part, C03 window parameters).  Interface: notes/agents/CODEC.md *)
-From Coq Require Import ZArith Bool List PrimFloat.
-From AwVerif Require Import Base.Prelude Model.PyFloat Model.IsoTime Model.EventModel Model.Codec.
+(* Codec lemmas: C01 (what the SQL back ends store reads back exactly) and C03 (distance
+   of sqlite's float window parameters from the instants; Bucket.get's millisecond
+   rounding is in Proofs/PyFloatFinite.v).  Interface notes: notes/agents/CODEC.md.
+   Float facts: Proofs/PyFloatSpec.v (Flocq). *)
+From Coq Require Import ZArith Reals Bool List Lia Lra Ascii PrimFloat.
+From Flocq Require Import Core IEEE754.BinarySingleNaN IEEE754.PrimFloat.
+From AwVerif Require Import Base.Prelude Model.PyFloat Model.IsoTime Model.EventModel Model.Codec
+  Proofs.PyFloatFinite Proofs.PyFloatSpec Proofs.EventProofs.
 Open Scope Z_scope.
 
-(* the C01 witness of the old float encoding reads back exactly under the integer encoding *)
+Definition codec_bound : Z := 2 ^ 33 * 1000000.     (* 8589934592000000 us, year 2242 *)
+
+Lemma two52_lt_bound : 2 ^ 52 < codec_bound. Proof. reflexivity. Qed.
+Lemma y2100_lt_bound : y2100 < 2 ^ 52. Proof. reflexivity. Qed.
+
+(* ---- sqlite ---- *)
+
+(* one INTEGER cell: row / 1000000 then datetime.fromtimestamp gives the row back *)
+Theorem sqlite_dec_cell_exact : forall n, Z.abs n < codec_bound -> sqlite_dec_cell n = Ok n.
+Proof. intros n H. exact (fromtimestamp_decode n H). Qed.
+
+Theorem sqlite_codec_roundtrip : forall ts dur,
+  ms_aligned ts -> 0 <= ts -> 0 <= dur -> ts + dur < codec_bound ->
+  sqlite_dec (sqlite_enc ts dur) = Ok (ts, dur).
+Proof.
+  intros ts dur A Ht Hd Hb. unfold sqlite_dec, sqlite_enc. cbn [fst snd].
+  rewrite (sqlite_dec_cell_exact ts) by (unfold codec_bound in *; lia).
+  rewrite (sqlite_dec_cell_exact (ts + dur)) by (unfold codec_bound in *; lia).
+  cbn [bind].
+  assert (S : set_timestamp (TsDt ts 0) = Ok ts).
+  { unfold set_timestamp. rewrite timestamp_parse_dt. cbn [bind fst].
+    rewrite Z.add_0_r, Z.sub_0_r, (floor_ms_aligned ts A).
+    apply dt_check_ok. unfold min_us, max_us, codec_bound in *. lia. }
+  rewrite S. cbn [bind]. f_equal. f_equal. lia.
+Qed.
+
+(* the statement of DESIGN section 5 (C01): bound 2^52 *)
+Corollary sqlite_codec_roundtrip_52 : forall ts dur,
+  ms_aligned ts -> 0 <= ts -> 0 <= dur -> ts + dur < 2 ^ 52 ->
+  sqlite_dec (sqlite_enc ts dur) = Ok (ts, dur).
+Proof.
+  intros ts dur A Ht Hd Hb. apply sqlite_codec_roundtrip; try assumption.
+  pose proof two52_lt_bound. lia.
+Qed.
+
+(* the bound is sharp *)
+Example sqlite_codec_bound_sharp :
+  sqlite_dec (sqlite_enc 0 (codec_bound + 1)) = Ok (0, codec_bound + 2).
+Proof. vm_compute. reflexivity. Qed.
+
+(* the witness of the old float encoding (known finding 3) reads back exactly now *)
 Example sqlite_codec_witness :
   sqlite_dec (sqlite_enc 2250122380221000 2141079079834) = Ok (2250122380221000, 2141079079834).
 Proof. vm_compute. reflexivity. Qed.
+
+(* window parameters of get_events / get_eventcount: starttime.timestamp() * 1000000 *)
+Theorem sqlite_param_error : forall u, 0 <= u < 2 ^ 52 ->
+  exists p, sqlite_float_param u = Ok p /\ fin p /\ (Rabs (FR p - IZR u) <= 3 / 4)%R.
+Proof. exact PyFloatSpec.sqlite_param_error. Qed.
+
+Theorem sqlite_param_error_51 : forall u, 0 <= u < 2 ^ 51 ->
+  exists p, sqlite_float_param u = Ok p /\ fin p /\ (Rabs (FR p - IZR u) <= 3 / 8)%R.
+Proof. exact PyFloatSpec.sqlite_param_error_51. Qed.
+
+(* what the comparison of an INTEGER cell c with the REAL parameter means: the parameter
+   acts as the exact instant u up to one microsecond on the permissive side *)
+Theorem sqlite_param_compare : forall u c, 0 <= u < 2 ^ 52 ->
+  exists p, sqlite_float_param u = Ok p /\ fin p /\
+    ((IZR c >= FR p)%R -> c >= u) /\ (c >= u + 1 -> (IZR c >= FR p)%R) /\
+    ((IZR c <= FR p)%R -> c <= u) /\ (c <= u - 1 -> (IZR c <= FR p)%R).
+Proof.
+  intros u c Hu. destruct (sqlite_param_error u Hu) as (p & E & F & B).
+  exists p. split; [exact E|]. split; [exact F|].
+  apply Rabs_le_inv in B.
+  repeat split; intros H.
+  - assert (u - 1 < c); [|lia]. apply lt_IZR. rewrite minus_IZR. simpl. lra.
+  - assert (IZR (u + 1) <= IZR c)%R by (apply IZR_le; lia). rewrite plus_IZR in H0. simpl in H0. lra.
+  - assert (c < u + 1); [|lia]. apply lt_IZR. rewrite plus_IZR. simpl. lra.
+  - assert (IZR c <= IZR (u - 1))%R by (apply IZR_le; lia). rewrite minus_IZR in H0. simpl in H0. lra.
+Qed.
+
+(* ---- peewee ---- *)
+
+(* duration: total_seconds() -> DECIMAL cell -> float() -> timedelta(seconds=), when the
+   cell gives back the stored binary64 *)
+Theorem peewee_duration_roundtrip : forall dur, Z.abs dur < codec_bound ->
+  bind (peewee_dur_enc dur) peewee_dur_dec = Ok dur.
+Proof. intros dur H. exact (td_roundtrip dur H). Qed.
+
+(* ... and when the cell gives back any finite float within 31/64 us of the duration
+   (SQLite's text -> REAL conversion is not always correctly rounded: measured 58 of
+   200 000 values off by one ulp on SQLite 3.40.1) *)
+Theorem peewee_duration_roundtrip_near : forall dur cell, fin cell ->
+  Z.abs dur <= 86399999913600000000 ->
+  (Rabs (FR cell * 1000000 - IZR dur) <= 31 / 64)%R ->
+  peewee_dur_dec cell = Ok dur.
+Proof.
+  intros dur cell F H N. unfold peewee_dur_dec. apply td_near; [exact F| |exact N].
+  unfold max_days, us_per_day. lia.
+Qed.
+
+(* a cell that is off by at most 2^-22 s from the stored float still round-trips for
+   |dur| < 2^31 * 10^6 us (68 years); one ulp of such a float is at most 2^-22 *)
+Theorem peewee_duration_roundtrip_ulp : forall dur f cell,
+  Z.abs dur < 2 ^ 31 * 1000000 -> peewee_dur_enc dur = Ok f -> fin cell ->
+  (Rabs (FR cell - FR f) <= bpow radix2 (-22))%R ->
+  peewee_dur_dec cell = Ok dur.
+Proof.
+  intros dur f cell Hd Ef Fc Hc.
+  destruct (total_seconds_finite dur ltac:(lia)) as (f' & Ef' & Ff & Vf).
+  unfold peewee_dur_enc in Ef. rewrite Ef in Ef'. injection Ef' as <-.
+  apply peewee_duration_roundtrip_near; [exact Fc | lia |].
+  set (x := (IZR dur / 1000000)%R) in *.
+  assert (Xb : (Rabs x < bpow radix2 31)%R).
+  { unfold x, Rdiv. rewrite Rabs_mult, (Rabs_pos_eq (/ 1000000)) by lra.
+    assert (Rabs (IZR dur) < IZR (2 ^ 31 * 1000000))%R by (apply Rabs_IZR_lt; exact Hd).
+    change (bpow radix2 31) with (IZR (Zpower_pos 2 31)). rewrite mult_IZR in H. simpl in *. lra. }
+  pose proof (RN_err x 31 ltac:(lia) Xb) as E. change (31 - 54) with (-23) in E.
+  rewrite Vf in Hc.
+  replace (FR cell * 1000000 - IZR dur)%R with (((FR cell - RN x) + (RN x - x)) * 1000000)%R
+    by (unfold x; field).
+  rewrite Rabs_mult, (Rabs_pos_eq 1000000) by lra.
+  assert (T : (Rabs (FR cell - RN x + (RN x - x)) <= bpow radix2 (-22) + bpow radix2 (-23))%R).
+  { eapply Rle_trans; [apply Rabs_triang|]. lra. }
+  change (bpow radix2 (-22)) with (/ IZR (Zpower_pos 2 22))%R in T.
+  change (bpow radix2 (-23)) with (/ IZR (Zpower_pos 2 23))%R in T. simpl in T.
+  assert (0 <= Rabs (FR cell - RN x + (RN x - x)))%R by apply Rabs_pos. lra.
+Qed.
